@@ -168,6 +168,14 @@ CHECKS = {
         "DESIGN.md section 6 C19",
         "E3",
     ),
+    "C20": (
+        "exploration",
+        "exhaustive enumeration of configurations: for each spec tree (corpus, cross-file, root-file, minimal, module-name collision trees) the real protocol.py generate, then one fresh interpreter per first-import choice checking every documented dotted path and the identity of every public static name and generated class",
+        "Every (tree, first-imported module) pair is explored (all generated modules in the thorough tier); resolution must be right and identical for every first import.",
+        "Documented paths and degenerate name collisions as listed in DESIGN; Python 3.12 import system.",
+        "DESIGN.md section 6 C20",
+        "subprocess",
+    ),
 }
 
 NOT_YET = {}
